@@ -65,7 +65,8 @@ class Sess:
 class Runner:
     """Executes a history; collects problems [(clause, text, step_index)]."""
 
-    def __init__(self, cfgs, clauses, force_salt=None):
+    def __init__(self, cfgs, clauses, force_salt=None, pin_ids=False):
+        self.pin_ids = pin_ids
         self.sessions = [Sess(c, force_salt) for c in cfgs]
         self.clauses = clauses
         self.problems = []
@@ -84,9 +85,17 @@ class Runner:
             self.problems.append((clause, text, self.step_no))
 
     def run(self, history):
+        mod, fast = drivers.subject()
+        force = getattr(fast, "_verif_rng_force", None) if self.pin_ids else None
         for i, act in enumerate(history):
             self.step_no = i
-            self.step(act)
+            if force is not None and act[0] not in ("set_keys", "discover", "reply", "timeout"):
+                force([0x12345678, 0x23456789])  # request-id, msgID: fixed width
+            try:
+                self.step(act)
+            finally:
+                if force is not None:
+                    force([])
         return self.problems
 
     # -- one action
@@ -171,6 +180,7 @@ class Runner:
                     "boots": s.model.boots,
                     "flags": req.flags if req is not None else None,
                     "kind": kind,
+                    "pad": getattr(req, "padding", None) if req is not None else None,
                 }
             )
             if w.take_request(wait=0) is not None:
@@ -379,9 +389,9 @@ def _clock(n, variant):
     return table[variant % len(table)]
 
 
-def run_history(cfg_descs, history, clauses, force_salt=None):
+def run_history(cfg_descs, history, clauses, force_salt=None, pin_ids=False):
     cfgs = [Cfg.from_desc(d) for d in cfg_descs]
-    r = Runner(cfgs, clauses, force_salt)
+    r = Runner(cfgs, clauses, force_salt, pin_ids)
     try:
         probs = r.run(history)
         return probs, r
